@@ -24,10 +24,11 @@ type slot = {
   mutable established : bool;         (* server side connection exists *)
   mutable pending_sends : int;
   mutable pending_foreign : int;
+  mutable ctl_sent : int;
 }
 let fresh_slot () = { started = false; real = { c_uid = Z0; c_gid = Z0 }; eff = { c_uid = Z0; c_gid = Z0 }; raw = false;
                       kacc = false; authed = false; peer = None; ord = -1; alive = false; client_up = false;
-                      finned = false; connected = false; established = false; pending_sends = 0; pending_foreign = 0 }
+                      finned = false; connected = false; established = false; pending_sends = 0; pending_foreign = 0; ctl_sent = 0 }
 
 let maxs = 8
 let slots = Array.init maxs (fun _ -> fresh_slot ())
@@ -92,9 +93,32 @@ let exec_op k o =
    | LCb c -> pr "cb %s %d" (cbname c) k)
 
 let deliver sl =
-  for _ = 1 to sl.pending_sends do exec_op sl.ord LPeerSend done;
-  for _ = 1 to sl.pending_foreign do exec_op sl.ord (LForeign (!tr, filtered)) done;
-  sl.pending_sends <- 0; sl.pending_foreign <- 0
+  if !tr = Shm then begin
+    for _ = 1 to sl.pending_sends do exec_op sl.ord LPeerSend done;
+    for _ = 1 to sl.pending_foreign do exec_op sl.ord (LForeign (!tr, filtered)) done
+  end else begin
+    (* socket transport, lab bookkeeping: the server handles as many datagrams per look as the shared counter
+       ctl->sent says (at least one); the counter is incremented by the peer's library on every send and
+       decremented on every datagram the server takes.  A foreign datagram that gets through is taken like any
+       other but was never counted, so afterwards the counter is one short; a dropped one is not counted. *)
+    let own = ref sl.pending_sends and foreign = ref sl.pending_foreign in
+    if filtered then begin
+      for _ = 1 to !foreign do exec_op sl.ord (LForeign (!tr, true)) done; foreign := 0
+    end;
+    let avail = ref sl.ctl_sent in
+    let go = ref true in
+    while !go do
+      (* datagrams are taken in arrival order; the generator queues foreign ones before the peer's own *)
+      if !foreign > 0 then begin
+        exec_op sl.ord (LForeign (!tr, false)); decr foreign; sl.ctl_sent <- sl.ctl_sent - 1; decr avail
+      end else if !own > 0 then begin
+        exec_op sl.ord LPeerSend; decr own; sl.ctl_sent <- sl.ctl_sent - 1; decr avail
+      end else go := false;
+      if !avail <= 0 then go := false
+    done;
+    sl.pending_sends <- !own; sl.pending_foreign <- !foreign
+  end;
+  if !tr = Shm then begin sl.pending_sends <- 0; sl.pending_foreign <- 0 end
 
 let look_at sl =
   (* one server look at the slot's connection *)
@@ -108,7 +132,10 @@ let look_at sl =
     end else deliver sl
   end else begin
     (* no channel: whatever was sent goes nowhere *)
-    if sl.ord >= 0 then deliver sl;
+    if sl.ord >= 0 then begin
+      for _ = 1 to sl.pending_sends do exec_op sl.ord LPeerSend done;
+      for _ = 1 to sl.pending_foreign do exec_op sl.ord (LForeign (!tr, filtered)) done
+    end;
     sl.pending_sends <- 0; sl.pending_foreign <- 0
   end
 
@@ -144,7 +171,9 @@ let () =
             (match !pend with
              | [] -> pr "r none-pending"
              | i :: r -> pend := r; slots.(i).kacc <- true)
-          | ["auth"; s] ->
+          | ["auth"; s] | ["t"; s] when (let sl = slots.(int_of_string s) in sl.started && sl.kacc && not sl.authed)
+                                     || List.hd rest = "auth" ->
+            (* the server looks at the slot's descriptors: a pending handshake is answered (whatever the op is called) *)
             let sl = slots.(int_of_string s) in
             if sl.started && sl.kacc && not sl.authed then begin
               sl.authed <- true;
@@ -180,7 +209,9 @@ let () =
             else begin
               let ok = if sl.raw then sl.established || not sl.authed
                 else sl.connected && sl.established in
-              if ok && not sl.raw then sl.pending_sends <- sl.pending_sends + 1;
+              if ok && not sl.raw then begin
+                sl.pending_sends <- sl.pending_sends + 1; sl.ctl_sent <- sl.ctl_sent + 1
+              end;
               pr "sent %d %s" i (if ok then "ok" else "fail")
             end
           | ["t"; s] -> look_at slots.(int_of_string s); pr "chan %d" (chan_count ())
